@@ -6,14 +6,13 @@ usage: python -m harness.drivers.c07 <mode> <out> <seed> <n> [theories]
                                            `real` (nat, int, real, list, set, function); also writes <out>.typable.json (which
                                            (outer, side, inner) nestings have a well-typed instance) for the S-level model
   corpus <out.ndjson> <seed> <n> th1,th2   statements of library items (terms, sequents), stored proof items, types
-  args   <out.ndjson> <seed> <tlc log> <k> proof-step arguments: the vectors <<"ARG", json>> of spec/C07_Args.tla (one value per
-                                           signature of parser.parse_args), printed with printer.print_str_args under k of the 4
-                                           supported settings (unicode x highlight; rotating with the seed) and exported through
-                                           printer.export_proof_item, parsed back with parser.parse_args / parse_proof_rule
-  sessions <out.ndjson> <seed> <tlc log>[,<tlc log>] <nlong>
-                                           histories: the vectors <<"HIST", json>> of spec/C07_History.tla performed on real objects
-                                           (terms, sequents, argument lists, instantiations that share terms), every one on objects
-                                           with fresh names, all in ONE process; then <nlong> seeded long histories on shared objects
+  ext    <out.ndjson> <seed> <args tlc log> <k> <history tlc log>[,<log>] <nlong>      in one process:
+     proof-step arguments: the vectors <<"ARG", json>> of spec/C07_Args.tla (one value per signature of parser.parse_args),
+                           printed with printer.print_str_args under k of the 4 supported settings (unicode x highlight; rotating
+                           with the seed) and exported through printer.export_proof_item, parsed back with parse_args / parse_proof_rule
+     histories:            the vectors <<"HIST", json>> of spec/C07_History.tla performed on real objects (terms, sequents,
+                           argument lists, instantiations that share terms), every history on objects with fresh names; then
+                           <nlong> seeded long histories on shared objects
   tables <out.json>                        operator table of syntax/operator.py and the term grammar text of syntax/parser.py
 Settings = (unicode, highlight, line width).  A line width is supported by the code for single terms only (print_thm and
 print_str_args raise TypeError / build ill-shaped lists when print_term returns a list of lines); types ignore it.
@@ -293,8 +292,8 @@ def nest(out_path, seed, n, hl_k=2):
         v = rnd.choice([v for v in t.get_vars() if v.T == T])
         t3 = Abs("z", T, t.abstract_over(v)).subst_bound(a)
         roundtrip_term(out, t3, "nest3:%s/%s/%s" % l, configs=CONFIGS[:2] + hl_pick(i, 1))
-    for lbl, t in extras():
-        roundtrip_term(out, t, "extra:" + lbl, configs=ALL_CONFIGS)
+    for i, (lbl, t) in enumerate(extras()):
+        roundtrip_term(out, t, "extra:" + lbl, configs=ALL_CONFIGS if hl_k >= 6 else CONFIGS + hl_pick(i, 3))
     history(out, pool, rnd)
     out.f.close()
     print("nest events", out.tid, "triples", len(typable))
@@ -487,7 +486,7 @@ def history(out, pool, rnd):
     a = Forall(x, Exists(y, P(x, y)))
     b = Forall(x, Exists(Var("z", NatType), P(x, Var("z", NatType))))
     for t in (a, b, a, b):
-        roundtrip_term(out, t, "alpha-variant", configs=CONFIGS[:2])
+        roundtrip_term(out, t, "alpha-variant", configs=CONFIGS[:2] + HL_CONFIGS[::3])
 
 
 # ------------------------------------------------------------------------------------------------ corpus
@@ -510,7 +509,7 @@ def corpus(out_path, seed, n, theories):
                 for e in exts:
                     if e.is_theorem():
                         prop = e.th.prop
-                        roundtrip_term(out, prop, "corpus:%s.%s" % (th, e.name), configs=CONFIGS[:3])
+                        roundtrip_term(out, prop, "corpus:%s.%s" % (th, e.name), configs=CONFIGS[:3] + [HL_CONFIGS[(i + seed) % 6]])
                         thm_event(out, Thm(prop, *[h for h in e.th.hyps]), "corpus:%s.%s" % (th, e.name))
                     elif e.is_constant():
                         type_event(out, e.T, "corpus:%s.%s" % (th, e.name))
@@ -520,70 +519,81 @@ def corpus(out_path, seed, n, theories):
     print("corpus events", out.tid)
 
 
-def thm_event(out, th, label):
-    for uni in (False, True):
-        ev = {"kind": "thm", "label": label, "cfg": [uni, 0], "t": encS(th)}
+def thm_vars(th):
+    vs = {}
+    for t in list(th.hyps) + [th.prop]:
+        vs.update(vars_of(t))
+    return vs
+
+
+def thm_event(out, th, label, configs=FLAT_CONFIGS):
+    for cfg in configs:
+        ev = {"kind": "thm", "label": label, "cfg": cfg_json(cfg), "t": encS(th)}
         try:
-            with global_setting(unicode=uni, highlight=False):
-                txt = printer.print_thm(th)
+            txt, ev["out"], ev["out2"] = print_twice(lambda: printer.print_thm(th), cfg)
             ev["text"] = txt
-            vs = {}
-            for t in list(th.hyps) + [th.prop]:
-                vs.update(vars_of(t))
-            context.set_context(None, vars=vs)
+            context.set_context(None, vars=thm_vars(th))
             r = parser.parse_thm(txt)
             ev["outcome"], ev["r"] = "ok", encS(r)
         except Exception as e:
             ev["outcome"], ev["r"], ev["err"] = "exc:" + type(e).__name__, {"h": [], "c": ["none"]}, str(e)[:160]
             ev.setdefault("text", "")
-        ev["key"] = "thm:%s:%s" % (label, ev["text"][:120])
+        ev["key"] = "thm:%s:%s%s" % (label, ev["text"][:120], ":hl" if cfg[1] else "")
         out.emit(ev)
 
 
-def type_event(out, T, label):
-    for uni in (False, True):
-        ev = {"kind": "type", "label": label, "cfg": [uni, 0], "t": encT(T)}
+def type_event(out, T, label, configs=FLAT_CONFIGS):
+    for cfg in configs:
+        ev = {"kind": "type", "label": label, "cfg": cfg_json(cfg), "t": encT(T)}
         try:
-            with global_setting(unicode=uni, highlight=False):
-                txt = printer.print_type(T)
+            txt, ev["out"], ev["out2"] = print_twice(lambda: printer.print_type(T), cfg)
             ev["text"] = txt
             r = parser.parse_type(txt)
             ev["outcome"], ev["r"] = "ok", encT(r)
         except Exception as e:
             ev["outcome"], ev["r"], ev["err"] = "exc:" + type(e).__name__, ["none"], str(e)[:160]
             ev.setdefault("text", "")
-        ev["key"] = "type:%s:%s" % (label, ev["text"][:120])
+        ev["key"] = "type:%s:%s%s" % (label, ev["text"][:120], ":hl" if cfg[1] else "")
         out.emit(ev)
 
 
-def proj_item(it):
-    a = it.args
+def proj_arg(a):
+    """structural projection of the argument of a proof step; an instantiation keeps BOTH parts (Inst.__eq__ is not used)"""
     if isinstance(a, Term):
-        ja = ["term", enc(a)]
-    elif isinstance(a, Inst):
-        ja = ["inst", sorted([k, encT(v)] for k, v in a.tyinst.items()), sorted([k, enc(v)] for k, v in a.items())]
-    elif isinstance(a, Type):
-        ja = ["type", encT(a)]
-    elif isinstance(a, (tuple, list)):
-        ja = ["tuple", [proj_item(ProofItem(0, "", args=x))[2] if isinstance(x, (Term, Inst, Type)) else ["str", str(x)] for x in a]]
-    elif a is None:
-        ja = ["none"]
-    else:
-        ja = ["str", str(a)]
-    return [str(it.id), it.rule, ja, [str(p) for p in it.prevs], encS(it.th) if it.th is not None else {"h": [], "c": ["none"]}]
+        return ["term", enc(a)]
+    if isinstance(a, Inst):
+        return ["inst", sorted([k, encT(v)] for k, v in a.tyinst.items()), sorted([k, enc(v)] for k, v in a.items())]
+    if isinstance(a, TyInst):
+        return ["tyinst", sorted([k, encT(v)] for k, v in a.items())]
+    if isinstance(a, Type):
+        return ["type", encT(a)]
+    if isinstance(a, (tuple, list)):
+        return ["tuple", [proj_arg(x) for x in a]]
+    if a is None:
+        return ["none"]
+    return ["str", str(a)]
+
+
+def proj_item(it):
+    return [str(it.id), it.rule, proj_arg(it.args), [str(p) for p in it.prevs], encS(it.th) if it.th is not None else {"h": [], "c": ["none"]}]
 
 
 def proof_items(out, item, th):
     context.set_context(None, vars=item.vars)
-    for line in item.proof[:40]:
-        ev = {"kind": "item", "label": "%s.%s#%s" % (th, item.name, line.get("id")), "cfg": [True, 0]}
+    for k, line in enumerate(item.proof[:40]):
+        hl = k % 2 == 1       # export_proof_item under both highlight settings: the exported fields must not depend on it
+        ev = {"kind": "item", "label": "%s.%s#%s" % (th, item.name, line.get("id")), "cfg": [True, hl, 0]}
         try:
             context.set_context(None, vars=item.vars)
             it = parser.parse_proof_rule(line)
             ev["t"] = proj_item(it)
-            with global_setting(unicode=True, highlight=False):
+            with global_setting(unicode=True, highlight=hl):
                 exp = printer.export_proof_item(it)[0]
-            ev["text"] = json.dumps(exp, ensure_ascii=False)[:300]
+            ev["out"] = out_of([exp.get("th"), exp.get("args")])
+            with global_setting(unicode=True, highlight=hl):
+                exp2 = printer.export_proof_item(it)[0]
+            ev["out2"] = out_of([exp2.get("th"), exp2.get("args")])
+            ev["text"] = json.dumps({k_: v for k_, v in exp.items() if not k_.endswith("_hl")}, ensure_ascii=False)[:300]
             context.set_context(None, vars=item.vars)
             it2 = parser.parse_proof_rule(exp)
             ev["outcome"], ev["r"] = "ok", proj_item(it2)
@@ -595,6 +605,291 @@ def proof_items(out, item, th):
                 continue      # the stored line itself does not parse in this context: not a round trip
         ev["key"] = "item:%s" % ev["label"]
         out.emit(ev)
+
+
+# ------------------------------------------------------------------------------------------------ proof-step arguments
+def tlc_vectors(paths, tag):
+    """the values printed by TLC as <<"TAG", "json">> (one per line of the log)"""
+    pre = '<<"%s", ' % tag
+    for path in str(paths).split(","):
+        for ln in open(path, errors="replace"):
+            if ln.startswith(pre):
+                yield json.loads(json.loads(ln.strip()[len(pre):-2]))
+
+
+def seqj(x):
+    """TLC serialises an empty sequence / a function over 1..n as a JSON list, but a function with another domain as an object"""
+    if isinstance(x, dict):
+        return [x[k] for k in sorted(x, key=int)]
+    return list(x)
+
+
+RULE_OF_SIG = {"inst": "substitution", "strinst": "apply_theorem_for", "tyinst": "subst_type", "term": "assume", "strtype": "variable",
+               "strterm": "rewrite_goal", "strterm2": "apply_induct", "terms": "intros", "str": "apply_theorem", "none": "implies_elim"}
+
+
+def mk_inst(ty, tm):
+    res = Inst({k: dec(t) for k, t in seqj(tm)})
+    res.tyinst = TyInst({k: decT(T) for k, T in seqj(ty)})
+    return res
+
+
+def dec_arg(v):
+    k = v[0]
+    if k == "inst":
+        return mk_inst(v[1], v[2])
+    if k == "strinst":
+        return (v[1], mk_inst(v[2], v[3]))
+    if k == "tyinst":
+        return TyInst({a: decT(T) for a, T in seqj(v[1])})
+    if k == "term":
+        return dec(v[1])
+    if k == "strtype":
+        return (v[1], decT(v[2]))
+    if k == "strterm":
+        return (v[1], dec(v[2]))
+    if k == "strterm2":
+        return (v[1], dec(v[2]), dec(v[3]))
+    if k == "terms":
+        return [dec(t) for t in seqj(v[1])]
+    if k == "str":
+        return v[1]
+    if k == "none":
+        return None
+    raise ValueError(v)
+
+
+def arg_vars(a, vs=None):
+    vs = {} if vs is None else vs
+    if isinstance(a, Term):
+        vs.update(vars_of(a))
+    elif isinstance(a, Inst):
+        for t in a.values():
+            vs.update(vars_of(t))
+    elif isinstance(a, (tuple, list)):
+        for x in a:
+            arg_vars(x, vs)
+    return vs
+
+
+def args_event(out, rule, a, cfg, label, th=None):
+    """print_str_args under cfg (twice), the text parsed back with parse_args at the signature the theory gives for the rule"""
+    ev = {"kind": "args", "label": label, "rule": rule, "cfg": cfg_json(cfg), "t": proj_arg(a)}
+    try:
+        txt, ev["out"], ev["out2"] = print_twice(lambda: printer.print_str_args(rule, a, th), cfg)
+        ev["text"] = txt
+        context.set_context(None, vars=arg_vars(a))
+        sig = theory.thy.get_proof_rule_sig(rule)
+        r = parser.parse_args(sig, txt)
+        ev["outcome"], ev["r"] = "ok", proj_arg(r)
+    except Exception as e:
+        ev["outcome"], ev["r"], ev["err"] = "exc:" + type(e).__name__, ["none"], str(e)[:160]
+        ev.setdefault("text", "")
+    ev["key"] = "args:%s:%s:%s%s" % (label, rule, ev["text"][:120], ":hl" if cfg[1] else "")
+    out.emit(ev)
+
+
+def export_event(out, rule, a, cfg, label, th):
+    """a whole proof step through export_proof_item (twice) / parse_proof_rule"""
+    it = ProofItem("0.1", rule, args=a, prevs=["0.0"] if rule in ("implies_elim", "apply_theorem", "rewrite_goal") else [], th=th)
+    ev = {"kind": "item", "label": label, "rule": rule, "cfg": cfg_json(cfg), "t": proj_item(it)}
+    try:
+        with global_setting(unicode=cfg[0], highlight=cfg[1]):
+            exp = printer.export_proof_item(it)[0]
+        with global_setting(unicode=cfg[0], highlight=cfg[1]):
+            exp2 = printer.export_proof_item(it)[0]
+        ev["out"], ev["out2"] = out_of([exp.get("th"), exp.get("args")]), out_of([exp2.get("th"), exp2.get("args")])
+        if cfg[1]:
+            ev["out"] += out_of([exp.get("th_hl"), exp.get("args_hl")])
+            ev["out2"] += out_of([exp2.get("th_hl"), exp2.get("args_hl")])
+        ev["text"] = json.dumps({k_: v for k_, v in exp.items() if not k_.endswith("_hl")}, ensure_ascii=False)[:300]
+        vs = arg_vars(a)
+        if th is not None:
+            vs.update(thm_vars(th))
+        context.set_context(None, vars=vs)
+        it2 = parser.parse_proof_rule(exp)
+        ev["outcome"], ev["r"] = "ok", proj_item(it2)
+    except Exception as e:
+        ev["outcome"], ev["r"], ev["err"] = "exc:" + type(e).__name__, ["none"], str(e)[:160]
+        ev.setdefault("text", "")
+    ev["key"] = "item:%s:%s:%s%s" % (label, rule, ev["text"][:160], ":hl" if cfg[1] else "")
+    out.emit(ev)
+
+
+def args_mode(out, seed, tlc_log, k):
+    m, n = Var("m", NatType), Var("n", NatType)
+    less = Const("less", TFun(NatType, NatType, BoolType))
+    ths = [None, Thm(less(m, n)), Thm(less(m, n), Eq(m, n), less(n, m))]
+    nvec = 0
+    for i, vec in enumerate(tlc_vectors(tlc_log, "ARG")):
+        v = vec["v"]
+        nvec += 1
+        rule = RULE_OF_SIG[v[0]]
+        a = dec_arg(v)
+        label = "%s#%d" % (v[0], i)
+        # 'variable' with highlighting is a display form (x :: T), not the exported one: printed, not parsed back
+        cfgs = [FLAT_CONFIGS[(i + seed + j) % 4] for j in range(min(k, 4))]
+        for cfg in cfgs:
+            if rule == "variable" and cfg[1]:
+                continue
+            args_event(out, rule, a, cfg, label)
+        export_event(out, rule, a, FLAT_CONFIGS[(i + seed + 2) % 4], label, ths[(i + seed) % 3])
+        if v[0] == "term" and i % 2 == 0:
+            # the same value under the other rules that take a term (the rule name only matters to the display of the goal)
+            for rule2 in ("forall_intr", "reflexive"):
+                args_event(out, rule2, a, cfgs[0], label)
+    print("args events", out.tid, "vectors", nvec)
+
+
+# ------------------------------------------------------------------------------------------------ histories
+def session_pools(sfx):
+    """concrete instances of the three terms 1, 2, 3 of C07_History (propositions; fresh variable names per suffix)"""
+    nat, boolT = NatType, BoolType
+    setT = TConst("set", nat)
+    listT = TConst("list", nat)
+
+    def v(nm, T):
+        return Var(nm + sfx, T)
+    m, n, k, x, y = v("m", nat), v("n", nat), v("k", nat), v("x", nat), v("y", nat)
+    P, Q, f, g = v("P", TFun(nat, boolT)), v("Q", TFun(nat, nat, boolT)), v("f", TFun(nat, nat)), v("g", TFun(nat, nat))
+    A, B, C_, P2 = v("A", boolT), v("B", boolT), v("C", boolT), v("R", TFun(boolT, boolT))
+    s, xs = v("s", setT), v("xs", listT)
+    plus = Const("plus", TFun(nat, nat, nat))
+    less = Const("less", TFun(nat, nat, boolT))
+    conj = Const("conj", TFun(boolT, boolT, boolT))
+    disj = Const("disj", TFun(boolT, boolT, boolT))
+    ins = Const("insert", TFun(nat, setT, setT))
+    cons = Const("cons", TFun(nat, listT, listT))
+    emp, nil = Const("empty_set", setT), Const("nil", listT)
+    IF = Const("IF", TFun(boolT, nat, nat, nat))
+    return [
+        (less(m, n), Eq(plus(n, k), m), P(plus(m, k))),
+        (P2(Eq(emp, emp)), Forall(y, Q(y, x)), conj(A, disj(B, C_))),         # P (({}::nat set) = {}): printed with an annotation
+        (Eq(Lambda(x, f(x)), g), Eq(IF(A, m, n), k), Not(Eq(m, Nat(0)))),
+        (Eq(cons(m, cons(n, nil)), xs), Eq(ins(m, ins(n, emp)), s), Exists(x, conj(P(x), Forall(y, Q(x, y))))),
+    ]
+
+
+def mk_obj(kind, ids, terms):
+    ts = [terms[i - 1] for i in ids]
+    if kind == "term":
+        return ts[0]
+    if kind == "thm":
+        return Thm(ts[-1], *ts[:-1])
+    if kind == "list":
+        return list(ts)
+    if kind == "inst":
+        r = Inst({"AB"[j] if j < 2 else "C%d" % j: t for j, t in enumerate(ts)})
+        r.tyinst = TyInst({"a": NatType})
+        return r
+    raise ValueError(kind)
+
+
+def proj_obj(kind, o):
+    if kind == "thm":
+        return ["thm", [enc(h) for h in o.hyps], enc(o.prop)]
+    return proj_arg(o)
+
+
+def obj_vars(kind, o):
+    return thm_vars(o) if kind == "thm" else arg_vars(o)
+
+
+class Vals:
+    """table of the distinct projections of one session event (1-based; 1 = no value): identical structures are stored once,
+    the comparison of two entries is made by the T specification"""
+    def __init__(self):
+        self.vals, self.idx = [["none"]], {}
+
+    def add(self, j):
+        k = json.dumps(j, separators=(",", ":"))
+        if k not in self.idx:
+            self.vals.append(j)
+            self.idx[k] = len(self.vals)
+        return self.idx[k]
+
+
+def do_step(kind, o, cfg, V):
+    """one print operation and the parse back: the step record (without the name of the object)"""
+    st = {"cfg": cfg_json(cfg)}
+    try:
+        with global_setting(unicode=cfg[0], highlight=cfg[1], line_length=cfg[2]):
+            if kind == "term":
+                a = printer.print_term(o)
+            elif kind == "thm":
+                a = printer.print_thm(o)
+            elif kind == "list":
+                a = printer.print_str_args("intros", o, None)
+            else:
+                a = printer.print_str_args("substitution", o, None)
+            st["out"] = out_of(a)
+            txt = text_of(a)
+        st["text"] = txt[:200]
+        context.set_context(None, vars=obj_vars(kind, o))
+        if kind == "term":
+            r = parser.parse_term(txt)
+        elif kind == "thm":
+            r = parser.parse_thm(txt)
+        elif kind == "list":
+            r = parser.parse_args(List[Term], txt)
+        else:
+            r = parser.parse_args(Inst, txt)
+        st["outcome"], st["r"] = "ok", V.add(proj_obj(kind, r))
+    except Exception as e:
+        st["outcome"], st["r"], st["err"] = "exc:" + type(e).__name__, 1, str(e)[:120]
+        st.setdefault("out", [])
+        st.setdefault("text", "")
+    return st
+
+
+OBJ_SHAPES = {"T1": ("term", [1]), "T2": ("term", [2]), "T3": ("term", [3]), "S0": ("thm", [1]), "S1": ("thm", [1, 2]), "S2": ("thm", [1, 2, 3]),
+              "S2r": ("thm", [2, 1, 3]), "L1": ("list", [1]), "L2": ("list", [1, 2]), "L3": ("list", [2, 1, 3]), "I2": ("inst", [1, 2])}
+
+
+def sessions_mode(out, seed, tlc_log, nlong):
+    rnd = random.Random(seed)
+    tid0 = out.tid
+    npools = len(session_pools(""))
+    nvec = 0
+    for i, vec in enumerate(tlc_vectors(tlc_log, "HIST")):
+        nvec += 1
+        ops = seqj(vec["ops"])
+        terms = session_pools("_%d" % i)[(i + seed) % npools]        # fresh names: no memoised state is shared with another history
+        objs, steps, path, V = {}, [], [], Vals()
+        for op in ops:
+            nm, kind, ids = op["o"], op["kind"], seqj(op["ids"])
+            if nm not in objs:
+                objs[nm] = (kind, mk_obj(kind, ids, terms))
+            st = do_step(kind, objs[nm][1], (op["uni"], op["hl"], None), V)
+            st["o"] = nm
+            steps.append(st)
+            path.append("%s@%s" % (nm, op["c"]))
+        out.emit({"kind": "session", "fam": "tlc", "pool": (i + seed) % npools, "objs": {nm: V.add(proj_obj(k_, o)) for nm, (k_, o) in objs.items()},
+                  "vals": V.vals, "steps": steps, "key": "session:p%d:%s" % ((i + seed) % npools, ">".join(path))})
+    # long seeded histories on SHARED objects (nothing is fresh): every object of the pool, every setting, terms also with line widths
+    for j in range(nlong):
+        terms = session_pools("")[(j + seed) % npools]
+        objs = {nm: (kind, mk_obj(kind, ids, terms)) for nm, (kind, ids) in OBJ_SHAPES.items()}
+        steps, names, V = [], sorted(objs), Vals()
+        for _ in range(120):
+            nm = rnd.choice(names)
+            kind, o = objs[nm]
+            cfg = rnd.choice(ALL_CONFIGS if kind == "term" else FLAT_CONFIGS)
+            st = do_step(kind, o, cfg, V)
+            st["o"] = nm
+            steps.append(st)
+        out.emit({"kind": "session", "fam": "long", "pool": (j + seed) % npools, "objs": {nm: V.add(proj_obj(k_, o)) for nm, (k_, o) in objs.items()},
+                  "vals": V.vals, "steps": steps, "key": "session:long:p%d:seed%d:%d" % ((j + seed) % npools, seed, j)})
+    print("session events", out.tid - tid0, "vectors", nvec)
+
+
+def ext_mode(out_path, seed, args_log, k, hist_logs, nlong):
+    """proof-step arguments, then the histories, in one process (theory real)"""
+    basic.load_theory("real")
+    out = Out(out_path)
+    args_mode(out, seed, args_log, k)
+    sessions_mode(out, seed, hist_logs, nlong)
+    out.f.close()
 
 
 def tables(out_path):
@@ -612,5 +907,7 @@ if __name__ == "__main__":
         nest(sys.argv[2], int(sys.argv[3]), int(sys.argv[4]), int(sys.argv[5]) if len(sys.argv) > 5 else 2)
     elif mode == "corpus":
         corpus(sys.argv[2], int(sys.argv[3]), int(sys.argv[4]), sys.argv[5].split(","))
+    elif mode == "ext":
+        ext_mode(sys.argv[2], int(sys.argv[3]), sys.argv[4], int(sys.argv[5]), sys.argv[6], int(sys.argv[7]))
     elif mode == "tables":
         tables(sys.argv[2])
